@@ -1,10 +1,9 @@
 ----------------------------- MODULE O2OTokens -----------------------------
-(* C10: placeholders in inline expressions.  Token streams are handled in flattened form
-   (group delimiters are tokens); substitution commutes with flattening, so "at every nesting
-   depth" is the statement that it is a token-wise map on the flat sequence. *)
+(* C10: placeholders in inline expressions.  Token streams are handled in flattened form (group delimiters are tokens);
+   substitution commutes with flattening, so "at every nesting depth" is the statement that it is a token-wise map on the flat
+   sequence.  A flat token is <<kind, text, spacing>>, kind in {"i","p","l","g"}, spacing in {"a","j","*"} ("*" = do not care). *)
 EXTENDS Naturals, Sequences
 
-\* a flat token: <<kind, text, spacing>>, kind in {"i","p","l","g"}, spacing in {"a","j","*"} ("*" = do not care)
 IsAt(t)    == t[1] = "p" /\ t[2] = "@"
 IsTilde(t) == t[1] = "p" /\ t[2] = "~"
 
@@ -13,14 +12,31 @@ Subst(ts, at, tilde) ==
   IF ts = <<>> THEN <<>>
   ELSE (IF IsAt(ts[1]) THEN at ELSE IF IsTilde(ts[1]) THEN tilde ELSE <<ts[1]>>) \o Subst(Tail(ts), at, tilde)
 
+\* design-level: substitution is a homomorphism -- every non-placeholder token is kept, in order
+RECURSIVE NonPlaceholders(_)
+NonPlaceholders(ts) == IF ts = <<>> THEN <<>> ELSE (IF IsAt(ts[1]) \/ IsTilde(ts[1]) THEN <<>> ELSE <<ts[1]>>) \o NonPlaceholders(Tail(ts))
+
 TokEq(a, b) == a[1] = b[1] /\ a[2] = b[2] /\ (a[3] = "*" \/ b[3] = "*" \/ a[3] = b[3])
 MatchAt(out, p, exp) == /\ p >= 1 /\ p + Len(exp) - 1 <= Len(out)
                         /\ \A i \in 1..Len(exp) : TokEq(out[p + i - 1], exp[i])
-Occurs(out, exp) == \E p \in 1..(Len(out) - Len(exp) + 1) : MatchAt(out, p, exp)
+RECURSIVE FindFrom(_, _, _)
+FindFrom(out, exp, p) == IF p + Len(exp) - 1 > Len(out) THEN 0 ELSE IF MatchAt(out, p, exp) THEN p ELSE FindFrom(out, exp, p + 1)
+Occurs(out, exp) == FindFrom(out, exp, 1) # 0
 
 Ident(s) == <<"i", s, "*">>
 Dot == <<"p", ".", "*">>
-\* what the placeholders stand for (struct members; README "Inline expressions")
-AtFor(conv)          == IF conv = "from" THEN <<Ident("value")>> ELSE <<Ident("self")>>
-TildeFor(conv, path) == AtFor(conv) \o path          \* path = <<Dot, member, Dot, member ...>> on the source object
+Colon2 == <<<<"p", ":", "*">>, <<"p", ":", "*">>>>
+PathOf(ms) == [i \in 1..(2 * Len(ms)) |-> IF i % 2 = 1 THEN Dot ELSE Ident(ms[i \div 2])]
+
+\* what the placeholders stand for, per position of the expression and direction of the conversion (README "Inline expressions";
+\* the names are those of the fixed carrier types the printer uses: S { a, s1 } <-> D { a, rx | s1 | p.q.rx }, enum S { V1 .. } <-> D)
+AtFor(conv) == IF conv = "from" THEN <<Ident("value")>> ELSE <<Ident("self")>>
+TildeFor(pos, conv) ==
+  CASE pos = "member_ren"   -> IF conv = "from" THEN AtFor(conv) \o PathOf(<<"rx">>) ELSE AtFor(conv) \o PathOf(<<"s1">>)
+    [] pos = "member"       -> AtFor(conv) \o PathOf(<<"s1">>)
+    [] pos = "member_child" -> IF conv = "from" THEN AtFor(conv) \o PathOf(<<"p", "q", "rx">>) ELSE AtFor(conv) \o PathOf(<<"s1">>)
+    [] pos = "payload"      -> <<Ident("f0")>>
+    [] pos = "variant_expr" -> IF conv = "from" THEN <<Ident("S")>> \o Colon2 \o <<Ident("V1")>> ELSE <<Ident("D")>> \o Colon2 \o <<Ident("V1")>>
+    [] OTHER                -> <<<<"?", "tilde is not defined in this position", "*">>>>
+TildeDefined(pos) == pos \in {"member_ren", "member", "member_child", "payload", "variant_expr"}
 =============================================================================
